@@ -1,0 +1,38 @@
+// Copyright (C) 2026 Storj Labs, Inc.
+// See LICENSE for copying information.
+
+//go:build verif
+
+package drpcmux
+
+// Machine-checked contracts for this package (read by /verif/govc; comment-only).
+
+//@ axiom streamType != nil && messageType != nil
+
+// HandleRPC: an rpc that is not registered fails with a protocol error before anything is read;
+// a request that does not decode fails with the decode error (wrapped: same text, same code) and the
+// handler is not run; the handler's error comes back wrapped (same text, same code); nothing else
+// can turn a handler error into success.
+//@ func (*Mux).HandleRPC
+//@   props C10 C13
+//@   requires stream != nil
+//@   modifies *
+//@   assumes "types recorded by registerOne are pointer types implementing drpc.Message (generated code): Type.Elem and Value.IsNil are applicable; a receiver's non-nil result is a pointer"
+//@   assumes "every entry of m.rpcs was stored by registerOne, hence has a non-nil input type ([C13.entry-wf] in registerOne)"
+//@   site Elem assume [entry-wf] arg0 != nil
+//@   ghost entry herr = nil
+//@   ghost after:receiver herr = ret1
+//@   ghost entry rerr = nil
+//@   ghost after:MsgRecv rerr = ret
+//@   site receiver assert [C10.decoded-first] rerr == nil
+//@   check [C10.unknown-rpc]      eventCount("dyn:receiver") == 0 && eventCount("invoke:MsgRecv") == 0 ==> err != nil
+//@   check [C10.decode-error]     rerr != nil ==> err != nil && chainCode(err) == chainCode(rerr) && methodStr(err, "Error") == methodStr(rerr, "Error") && eventCount("dyn:receiver") == 0
+//@   check [C10.handler-error]    herr != nil ==> err != nil && chainCode(err) == chainCode(herr) && methodStr(err, "Error") == methodStr(herr, "Error") && eventCount("invoke:MsgSend") == 0 && eventCount("invoke:CloseSend") == 0
+//@   check [C10.one-outcome]      eventCount("dyn:receiver") == 1 && herr == nil ==> eventCount("invoke:MsgSend") + eventCount("invoke:CloseSend") == 1
+
+// registerOne stores only entries with a non-nil input type (HandleRPC relies on it).
+//@ func (*Mux).registerOne
+//@   props C13 C10
+//@   requires m.rpcs != nil && method != nil
+//@   modifies *
+//@   site mapstore:rpcs assert [C13.entry-wf] arg1.in1 != nil && arg0 == rpc
